@@ -10,7 +10,7 @@
     context id (tx hash, per-block index) is issued while a context with that id is still
     stored — distinct transactions have distinct hashes (SHA-256 collision-freeness). *)
 From Irismod Require Import Service.Model Service.Proofs Service.ProofsHist Service.ProofsEscrow
-  Service.ProofsSched Service.ProofsBatch Service.ProofsLiab.
+  Service.ProofsSched Service.ProofsBatch Service.ProofsLiab Service.ProofsTally.
 
 (** Over EVERY history (any list of steps: messages of any kind and content, valid or not, block
     ends with expiry, slashing, refunds and new batches, rate changes, transfers, module
@@ -127,6 +127,17 @@ Theorem request_escrow_eq_liabilities :
 Proof. exact request_escrow_eq_liabilities_lemma. Qed.
 Print Assumptions request_escrow_eq_liabilities.
 
+(** Over EVERY history (no hypothesis at all), for every owner [o] and denom [d]: the owner-side
+    earned-fee tally equals the sum of the provider-side tallies of the providers that [o] owns
+    ([osum]).  FALSE on the unfixed code (corpus/C07/stale-owner-tally.jsonl): the proof of the
+    withdrawal case uses that the owner tally is rewritten completely. *)
+Theorem provider_owner_tallies_agree :
+  forall c steps h0 t0 l0 o d,
+    let s := run c (init h0 t0 l0) steps in
+    getz (o, d) (oearned s) = osum s o d.
+Proof. exact provider_owner_tallies_agree_lemma. Qed.
+Print Assumptions provider_owner_tallies_agree.
+
 (** Writing [liab d s] for (fees of the active requests in denom d) + (earned fees in denom d):
     if the request escrow equals the liabilities in every denom, it still does after ANY step
     other than a block end — any message of any content (responses, withdrawals, bindings,
@@ -182,6 +193,11 @@ Qed.
 Example c07_escrow_nonvacuous :
   let s := run ex_cfg (init 1 1000 ex_l0) (firstn 5 ex_hist) in
   liab BASE s = 110 /\ bal (led s) REQ BASE = 110 /\ bal ex_l0 REQ BASE = 0.
+Proof. vm_compute. repeat split; reflexivity. Qed.
+
+Example c07_tallies_nonvacuous :
+  let s := run ex_cfg (init 1 1000 ex_l0) ex_hist in
+  getz (0, BASE) (oearned s) = 48 /\ osum s 0 BASE = 48 /\ getz (2, BASE) (earned s) = 48.
 Proof. vm_compute. repeat split; reflexivity. Qed.
 
 Example c07_fresh_history_satisfiable :
